@@ -834,8 +834,12 @@ pub fn check(prop: &str, tier: &str) -> i32 {
     let cap_secs: f64 = std::env::var("VERIF_CAP_SECS").ok().and_then(|s| s.parse().ok()).unwrap_or(if thorough { 400.0 } else { 30.0 });
     let scs = scenarios(thorough);
     let exe = std::env::current_exe().unwrap_or_else(|e| machinery(&format!("current_exe: {e}")));
+    // reduced run on the second configuration: three scenarios, 8 s
+    let reduced = !thorough && crate::common::is_sub();
+    let cap_secs = if reduced { cap_secs.min(8.0) } else { cap_secs };
+    let selected: Vec<usize> = (0..scs.len()).filter(|i| !reduced || [0usize, 2, 3].contains(i)).collect();
     // one child process per scenario, all in parallel
-    let children: Vec<_> = (0..scs.len())
+    let children: Vec<_> = selected.iter().copied()
         .map(|i| {
             std::process::Command::new(&exe)
                 .args(["sched-scenario", &i.to_string(), tier, &cap_secs.to_string()])
@@ -848,7 +852,7 @@ pub fn check(prop: &str, tier: &str) -> i32 {
     let mut total = 0u64;
     let mut free = 0u64;
     let mut per = vec![];
-    for (i, c) in children.into_iter().enumerate() {
+    for (i, c) in selected.iter().copied().zip(children.into_iter()) {
         let out = c.wait_with_output().unwrap_or_else(|e| machinery(&format!("scenario process: {e}")));
         let text = String::from_utf8_lossy(&out.stdout).to_string();
         if let Some(m) = text.lines().find(|l| l.starts_with("MACHINERY-ERROR")) {
@@ -873,7 +877,7 @@ pub fn check(prop: &str, tier: &str) -> i32 {
         per.push(v);
     }
     // liveness over a long run: more than 2^16 (thorough 2^20) acquisitions of the generator
-    soak(&mut run, if thorough { 1_100_000 } else { 140_000 });
+    soak(&mut run, if thorough { 1_100_000 } else if reduced { 70_000 } else { 140_000 });
     run.set("states", json!(total));
     run.set("transitions", json!(total));
     run.set("traces_validated_against_impl", json!(total));
